@@ -992,7 +992,9 @@ def d_items(I, self):
 
 @method(PDict, "keys")
 def d_keys(I, self):
-    return PList(list(self.items.keys()))
+    from .values import PKeys
+
+    return PKeys(list(self.items.keys()))
 
 
 @method(PDict, "values")
@@ -1012,6 +1014,11 @@ def d_update(I, self, other=None, **kw):
             self.items.update(other.items)
         elif isinstance(other, dict):
             self.items.update(other)
+        elif isinstance(other, (PList, list, tuple)) and all((isinstance(p, (tuple, list)) and len(p) == 2) or (isinstance(p, PList) and len(p.items) == 2) for p in (other.items if isinstance(other, PList) else other)):
+            # an iterable of (key, value) pairs of concrete length
+            for p in (other.items if isinstance(other, PList) else other):
+                k, v = (p.items if isinstance(p, PList) else p)
+                self.items[k] = v
         else:
             raise Unsupported("dict.update with symbolic map")
     self.items.update(kw)
